@@ -4,6 +4,7 @@
      map   lay=left|right|stride|tleft|tright it=<i8..u64> pat=[..] ext=[..] ctor=dyn|all [str=[..] perm=[..]]
      conv  it= sit= pat=[..] spat=[..] ext=[..]
      stride_members it= pat=[..] ext=[..] str=[..]
+     sub   it= pat=[..] ext=[..] keep=[0|1 ..]           (submdspan_extents with full_extent / index slices)
      span  n= se= op=first|last|subspan ct=0|1 off= cnt=
 -/
 import Tetl.Proto
@@ -50,10 +51,16 @@ def modelMap (l : Lay) (t : IdxT) (pat : Pat) (vals : List Int) (all : Bool) : E
   let offs ← idxs.mapM (fun i => mapIdx l t e (intsOf i))
   let buf := List.range req.toNat
   let md ← idxs.mapM (fun i => mdspanAt l t e buf (intsOf i))
+  let mdS ← idxs.mapM (fun i => mdspanAtSpan l t e buf (intsOf i))      -- operator[](array) / operator[](span)
   let mda ← idxs.mapM (fun i => mdarrayAt l t e (intsOf i))
-  let size ← e.fwdProd t rank
-  pure (fmtFields exts rank (rankDynamic pat) (toString req) strs offs (toString (t.toUnsigned.wrap size))
-    (okIf (intsOf md == offs)) (okIf (mda.all (fun p => p.1 == sz req) && intsOf (mda.map (·.2)) == offs)))
+  let mdaV ← idxs.mapM (fun i => mdarrayToMdspanAt l t e (intsOf i))     -- to_mdspan()
+  let csz ← mdarrayContainerSize l t e
+  let size ← mdspanSize t e
+  let emp ← mdspanEmpty t e
+  let self ← Ext.eq t t e e                                             -- `ms.extents() == e`
+  pure (fmtFields exts rank (rankDynamic pat) (toString req) strs offs (toString size)
+    (okIf (intsOf md == offs && mdS == md && emp == (req == 0) && self))
+    (okIf (mda.all (fun p => p.1 == sz req) && intsOf (mda.map (·.2)) == offs && intsOf mdaV == offs && csz == sz req)))
 
 def specMap (l : Lay) (pat : Pat) (vals : List Nat) : String :=
   let rank := vals.length
@@ -62,8 +69,12 @@ def specMap (l : Lay) (pat : Pat) (vals : List Nat) : String :=
   fmtFields (intsOf vals) rank (rankDynamic pat) (toString (Spec.prod vals)) (intsOf strs) (intsOf offs)
     (toString (Spec.prod vals)) "ok" "ok"
 
-/-- layout_stride on the model (required_span_size is declared but not defined: not printed here) -/
-def modelStride (t : IdxT) (pat : Pat) (vals str : List Int) (all : Bool) (bufLen : Nat) : Except Err String := do
+def fmtB (b : Bool) : String := if b then "1" else "0"
+
+/-- layout_stride on the model: offsets, strides, required_span_size, is_exhaustive, mdspan / mdarray access,
+    operator== (against layout_left / layout_right mappings of the same extents, a strided mapping over
+    `dextents<int64_t>` with the same strides and one with a different last stride) and the converting constructors -/
+def modelStride (t : IdxT) (pat : Pat) (vals str : List Int) (all : Bool) : Except Err String := do
   let e ← Ext.ofVals t pat (ctorVals pat vals all)
   let rank := pat.length
   let exts ← (List.range rank).mapM (e.extent t)
@@ -71,14 +82,52 @@ def modelStride (t : IdxT) (pat : Pat) (vals str : List Int) (all : Bool) (bufLe
   let strs ← (List.range rank).mapM m.stride
   let idxs := Spec.indices (natsOf exts)
   let offs ← idxs.mapM (fun i => m.mapIdx t (intsOf i))
-  let buf := List.range bufLen
+  let req ← m.reqSpan t
+  let buf := List.range req.toNat
   let md ← idxs.mapM (fun i => mdspanAtStride t m buf (intsOf i))
-  let size ← e.fwdProd t rank
-  pure (fmtFields exts rank (rankDynamic pat) "-" strs offs (toString (t.toUnsigned.wrap size)) (okIf (intsOf md == offs)) "-")
+  let mda ← idxs.mapM (fun i => mdarrayAtStride t m (intsOf i))
+  let size ← mdspanSize t e
+  let exh ← m.isExhaustive t
+  -- operator==
+  let t2 : IdxT := ⟨64, true⟩
+  let pat2 : Pat := List.replicate rank none
+  let e2 ← Ext.ofVals t2 pat2 vals
+  let m2 ← StrideMap.mk' t2 e2 str
+  let str3 := (List.range rank).zipWith (fun k x => if k + 1 == rank then x + 1 else x) str
+  let m3 ← StrideMap.mk' t2 e2 str3
+  let eql ← m.eqMapping t t e (stride .left t e) (mapIdx .left t e)
+  let eqr ← m.eqMapping t t e (stride .right t e) (mapIdx .right t e)
+  let eq2 ← m.eqMapping t t2 e2 m2.stride (m2.mapIdx t2)
+  let eq2' ← m2.eqMapping t2 t m.ext m.stride (m.mapIdx t)
+  let eq3 ← m.eqMapping t t2 e2 m3.stride (m3.mapIdx t2)
+  let eqs := fmtB eql ++ fmtB eqr ++ fmtB (eq2 && eq2') ++ (if rank == 0 then "-" else fmtB eq3)
+  -- converting constructors
+  let cl ← StrideMap.ofMapping t t pat e (stride .left t e)
+  let cr ← StrideMap.ofMapping t t pat e (stride .right t e)
+  let cs ← StrideMap.ofMapping t t2 pat e2 m2.stride
+  let cls ← (List.range rank).mapM cl.stride
+  let crs ← (List.range rank).mapM cr.stride
+  let css ← (List.range rank).mapM cs.stride
+  let ce ← (List.range rank).mapM (cs.ext.extent t)
+  let cle ← Ext.eq t t cl.ext e
+  let cre ← Ext.eq t t cr.ext e
+  let bl ← if eql then do let b ← contigOfStride t t pat m; let q ← Ext.eq t t b e; pure (fmtB q) else pure "-"
+  let br ← if eqr then do let b ← contigOfStride t t pat m; let q ← Ext.eq t t b e; pure (fmtB q) else pure "-"
+  pure (fmtFields exts rank (rankDynamic pat) (toString req) strs offs (toString size) (okIf (intsOf md == offs))
+      (okIf (mda.all (fun p => p.1 == sz req) && intsOf (mda.map (·.2)) == offs))
+    ++ s!" exh={fmtB exh} eq={eqs} cl={fmtList cls} cr={fmtList crs} cs={fmtList css} ce={fmtList ce}"
+    ++ (if cle && cre then "" else " conv-ext!") ++ s!" back={bl}{br}")
 
 def specStride (pat : Pat) (vals str : List Nat) : String :=
+  let rank := vals.length
   let offs := (Spec.indices vals).map (fun i => Spec.offStride str i)
-  fmtFields (intsOf vals) vals.length (rankDynamic pat) "-" (intsOf str) (intsOf offs) (toString (Spec.prod vals)) "ok" "-"
+  let sl := (List.range rank).map (Spec.strideLeft vals)
+  let sr := (List.range rank).map (Spec.strideRight vals)
+  fmtFields (intsOf vals) rank (rankDynamic pat) (toString (Spec.reqSpanStride vals str)) (intsOf str) (intsOf offs)
+      (toString (Spec.prod vals)) "ok" "ok"
+    ++ s!" exh={fmtB (Spec.isExhaustiveStride vals str)} eq={fmtB (str == sl)}{fmtB (str == sr)}1{if rank == 0 then "-" else "0"}"
+    ++ s!" cl={fmtNatList sl} cr={fmtNatList sr} cs={fmtNatList str} ce={fmtNatList vals}"
+    ++ s!" back={if str == sl then "1" else "-"}{if str == sr then "1" else "-"}"
 
 /-- layout_transpose: `pat`/`vals` describe the extents of the transposed view -/
 def modelT (l : Lay) (t : IdxT) (pat : Pat) (vals : List Int) (all : Bool) : Except Err String := do
@@ -95,9 +144,14 @@ def modelT (l : Lay) (t : IdxT) (pat : Pat) (vals : List Int) (all : Bool) : Exc
     | [a, b] => m.mapIdx t a b
     | _ => .error (.pre "arity"))
   let buf := List.range req.toNat
-  let md ← offs.mapM (fun o => if sz o < 0 then .error .oob else rd buf (sz o).toNat)
-  let size ← e.fwdProd t 2
-  pure (fmtFields exts 2 (rankDynamic pat) (toString req) strs offs (toString (t.toUnsigned.wrap size)) (okIf (intsOf md == offs)) "-")
+  let md ← idxs.mapM (fun i => match i with
+    | [a, b] => mdspanAtT t m buf a b
+    | _ => .error (.pre "arity"))
+  let size ← mdspanSize t e
+  let emp ← mdspanEmpty t e
+  -- is_always_exhaustive() / is_exhaustive() forward to the nested layout_left / layout_right mapping: constant true
+  pure (fmtFields exts 2 (rankDynamic pat) (toString req) strs offs (toString size)
+    (okIf (intsOf md == offs && emp == (req == 0))) "-" ++ " exh=1")
 
 def specT (l : Lay) (pat : Pat) (vals : List Nat) : String :=
   -- the transposed view of a row-major matrix is the column-major view of the same extents, and vice versa
@@ -105,6 +159,7 @@ def specT (l : Lay) (pat : Pat) (vals : List Nat) : String :=
   let strs := (List.range 2).map (fun k => match vl with | .left => Spec.strideLeft vals k | .right => Spec.strideRight vals k)
   let offs := (Spec.indices vals).map (fun i => match vl with | .left => Spec.offLeft vals i | .right => Spec.offRight vals i)
   fmtFields (intsOf vals) 2 (rankDynamic pat) (toString (Spec.prod vals)) (intsOf strs) (intsOf offs) (toString (Spec.prod vals)) "ok" "-"
+    ++ " exh=1"
 
 def fmtSpan (base : List Int) (s : Span) : Except Err String := do
   let el ← s.elems base
@@ -130,7 +185,7 @@ def step (_ : Unit) (l : Line) : Unit × String :=
         match l.natList? "str", l.natList? "perm" with
         | some str, some perm =>
           if !Spec.StrideOK vals str perm then out "pre(strides)" "pre(strides)" else
-          out (fmtE (modelStride t pat (intsOf vals) (intsOf str) all (Spec.reqSpanStride vals str))) (specStride pat vals str)
+          out (fmtE (modelStride t pat (intsOf vals) (intsOf str) all)) (specStride pat vals str)
         | _, _ => bad
       | _ => bad
     | _, _, _, _, _ => bad
@@ -145,10 +200,41 @@ def step (_ : Unit) (l : Line) : Unit × String :=
         let exts ← (List.range rank).mapM (e.extent t)
         let fwd ← (List.range (rank + 1)).mapM (e.fwdProd t)
         let rev ← (List.range rank).mapM (e.revProd t)
-        pure s!"ext={fmtList exts} rk={rank}/{rankDynamic pat} se={fmtList p} fwd={fmtList fwd} rev={fmtList rev}"
+        let self ← Ext.eq t t e e
+        let u64 : IdxT := ⟨64, false⟩
+        let dyn : Pat := List.replicate rank none
+        let s1 ← Ext.ofVals u64 dyn (intsOf vals)
+        let s2 ← Ext.ofVals u64 dyn ((List.range rank).zipWith (fun k x => if k + 1 == rank then x + 1 else x) (intsOf vals))
+        let s3 := Ext.default (List.replicate (rank + 1) none)
+        let c1 ← Ext.eq t u64 e s1
+        let c1' ← Ext.eq u64 t s1 e
+        let c2 ← Ext.eq t u64 e s2
+        let c2' ← Ext.eq u64 t s2 e
+        let c3 ← Ext.eq t ⟨16, true⟩ e s3
+        pure (s!"ext={fmtList exts} rk={rank}/{rankDynamic pat} se={fmtList p} fwd={fmtList fwd} rev={fmtList rev}"
+          ++ s!" cmp={fmtB (c1 && c1')}{if rank == 0 then "-" else fmtB (c2 || c2')}{fmtB c3}"
+          ++ (if self then "" else " copy!=self"))
       let sfwd := (List.range (rank + 1)).map (Spec.strideLeft vals)
       let srev := (List.range rank).map (Spec.strideRight vals)
-      out (fmtE m) s!"ext={fmtNatList vals} rk={rank}/{rankDynamic pat} se={fmtList p} fwd={fmtNatList sfwd} rev={fmtNatList srev}"
+      out (fmtE m) (s!"ext={fmtNatList vals} rk={rank}/{rankDynamic pat} se={fmtList p} fwd={fmtNatList sfwd} rev={fmtNatList srev}"
+        ++ s!" cmp=1{if rank == 0 then "-" else "0"}0")
+    | _, _, _, _ => bad
+  | "sub" =>
+    match (l.str? "it").bind parseIt, l.list? "pat", l.natList? "ext", l.natList? "keep" with
+    | some t, some p, some vals, some keepN =>
+      let pat := parsePat p
+      let keep := keepN.map (· != 0)
+      if pat.length ≠ vals.length || keep.length ≠ vals.length then bad else
+      let m : Except Err String := do
+        let e ← Ext.ofVals t pat (intsOf vals)
+        let r ← submdspanExtents t e keep
+        let exts ← (List.range r.pat.length).mapM (r.extent t)
+        let se : List Int := r.pat.map (fun o => match o with | some n => (n : Int) | none => -1)
+        pure s!"ext={fmtList exts} rk={r.pat.length}/{rankDynamic r.pat} se={fmtList se}"
+      -- spec: the kept dimensions, in order, with their static extents
+      let kv := ((keep.zip vals).filter (·.1)).map (·.2)
+      let kp := ((keep.zip p).filter (·.1)).map (·.2)
+      out (fmtE m) s!"ext={fmtNatList kv} rk={kv.length}/{(kp.filter (· < 0)).length} se={fmtList kp}"
     | _, _, _, _ => bad
   | "conv" =>
     match (l.str? "it").bind parseIt, (l.str? "sit").bind parseIt, l.list? "pat", l.list? "spat", l.natList? "ext" with
@@ -159,17 +245,22 @@ def step (_ : Unit) (l : Line) : Unit × String :=
         let src ← Ext.ofVals ts spat (intsOf vals)
         let dst ← Ext.conv t ts pat src
         let exts ← (List.range pat.length).mapM (dst.extent t)
-        let sexts ← (List.range pat.length).mapM (src.extent ts)
-        pure s!"ext={fmtList exts} rk={pat.length}/{rankDynamic pat} eq={fmtBool (exts == sexts)}"
+        let eq ← Ext.eq t ts dst src
+        pure s!"ext={fmtList exts} rk={pat.length}/{rankDynamic pat} eq={fmtBool eq}"
       out (fmtE m) s!"ext={fmtNatList vals} rk={pat.length}/{rankDynamic pat} eq=1"
     | _, _, _, _, _ => bad
   | "stride_members" =>
-    match l.natList? "ext", l.natList? "str" with
-    | some vals, some str =>
-      -- declared, never defined: nothing to model; the spec says what they must return
-      out "req=undefined exh=undefined"
-        s!"req={Spec.reqSpanStride vals str} exh={fmtBool (Spec.isExhaustiveStride vals str)}"
-    | _, _ => bad
+    match (l.str? "it").bind parseIt, l.list? "pat", l.natList? "ext", l.natList? "str" with
+    | some t, some p, some vals, some str =>
+      let pat := parsePat p
+      let m : Except Err String := do
+        let e ← Ext.ofVals t pat (intsOf vals)
+        let sm ← StrideMap.mk' t e (intsOf str)
+        let req ← sm.reqSpan t
+        let exh ← sm.isExhaustive t
+        pure s!"req={req} exh={fmtBool exh}"
+      out (fmtE m) s!"req={Spec.reqSpanStride vals str} exh={fmtBool (Spec.isExhaustiveStride vals str)}"
+    | _, _, _, _ => bad
   | "span" =>
     match l.nat? "n", l.int? "se", l.str? "op", l.nat? "ct", l.nat? "off", l.int? "cnt" with
     | some n, some se, some op, some ct, some off, some cnt =>
